@@ -365,7 +365,14 @@ def r6_both_sides_spell_hosts_alike(ctx):
         R.check(bool(lv) and all(l.kind == "field" and l.detail["fields"][-1][1] == "host" and l.detail["idx"] == 2 for l in lv), "C14.R6", "recognize:looks-up-request-host", "the router is asked about the request authority's host", "recognize() asks the router about %s" % [flow.leaf_str(l) for l in lv], where(c))
 
 
-RULES = [r1_gate, r2_port_table, r3_authority_table, r4_default_port, r5_one_parser_and_enabled_filter, r6_both_sides_spell_hosts_alike]
+
+def rstatus_http_status_table(ctx):
+    """the HTTP refusals relevant here carry their own status codes"""
+    from .common import http_status_table
+    http_status_table(ctx, "C14.STATUS", ('host_not_allowed', 'malformed'))
+
+
+RULES = [r1_gate, r2_port_table, r3_authority_table, r4_default_port, r5_one_parser_and_enabled_filter, r6_both_sides_spell_hosts_alike, rstatus_http_status_table]
 
 LEVEL_TEXT = (
     "The gate (who may reach the inner service) is decided by dominance for every path of HostFilter::call, and the three "
